@@ -87,11 +87,13 @@ def check_property(prop, tier, runs, level_note, assumptions):
                                           r.get("job_budget", 30.0), r.get("extra", ()))
         st = dict(label=r.get("label", ",".join(r["families"])), harness=hid, bound=r["bound"], dev=r.get("dev", 0),
                   programs=0, executions=0, steps=0, states=0, blocked_execs=0, multi_outcome_programs=0,
-                  exhaustive=True, not_run=0, min_bound_completed=None, wall_s=round(wall, 2))
+                  exhaustive=True, not_run=0, min_bound_completed=None, cache_saturated_programs=0, wall_s=round(wall, 2))
         for row in rows:
             if row.get("summary"):
                 if row.get("introspection"):
                     st["introspection"] = row["introspection"]
+                if row.get("layout"):
+                    st["layout"] = row["layout"]
                 continue
             res = row.get("result")
             if row["status"] == 3:
@@ -106,6 +108,7 @@ def check_property(prop, tier, runs, level_note, assumptions):
             st["steps"] += res["steps"]
             st["states"] += max(res["states"], 1)
             st["blocked_execs"] += res["blocked_execs"]
+            st["cache_saturated_programs"] += 1 if res.get("cache_saturated") else 0
             total["choice_points"] += res["choice_points"]
             total["pruned"] += res["pruned"]
             if res["n_outcomes"] > 1:
